@@ -141,6 +141,16 @@ CLAIMED = {
              "physical parameter sets (consecutive programs alternate spacing and wavelength) and compared with the single direct step.",
         note="NOT decided (no exact discrete counterpart): equality of different propagators as discretisations where their grids "
              "coincide, Gaussian-beam width/curvature/Gouy phase, Airy pattern. Known finding: twoStepFresnel is mirrored for d2 != d1."),
+    "C01": dict(
+        engine="tlc+replay", design_ref="DESIGN.md §3 C01, Appendix A.1",
+        technique="TLA+ spec SlopeCov.tla: every matrix entry derived from first principles as a bag of structure-function atoms (Def) vs the transcribed projection, stencils, block placement and bitwise-OR mirror (Impl, one action per (layer, sensor pair) loop body); EntryIsDef/Symmetric/NoGarbage checked by TLC on an integer lattice; every configuration replayed into CovarianceMatrix with a pseudo-random probe structure function (randomised identity test of every integer coefficient) and with the real one against an independent von Karman evaluation",
+        text="TLC enumerates 1378 (thorough ~8000) geometries: all 2x2 masks against five representative masks, asymmetric 3x3 masks, "
+             "NGS/LGS mixes (cone factor 1/2 at the upper layer), guide-star offsets, one or two layers (three sensors in thorough), "
+             "and decides Impl = Def entry by entry; each geometry is built with the real class twice (probe and physical run, the "
+             "multi-process path on a sample) and every entry compared; symmetry bit for bit, eigenvalues, r0^(-5/3) and "
+             "wavelength-product scaling on a sample.",
+        note="Lattice scope: equal ground diameters, cone factors 1 and 1/2. Trusted in the physical run: scipy.special.kv/gamma, "
+             "LAPACK eigvalsh. The 'snapshot' variant of the model (code as first read) violates EntryIsDef - kept as a self-test."),
 }
 
 NOT_APPLICABLE = {
